@@ -169,3 +169,294 @@ class Dispatcher:
     def operand_expr(self):
         """Expression of the object's single value (the operand)."""
         return None
+
+
+# ======================================================================================================================
+# Shape-independent reading of the dispatcher's guards (round 6).
+#
+# What C02 K2 needs is not "an edge `len == 1` dominates the exit" but: on every path on which the dispatcher answers
+# Ok(Some(operation)), (a) the value is an Object, (b) the number of its entries is exactly one, (c) the table lookup
+# hit.  The paths are read with rules/x_ipaths.py (private helpers expanded at their call sites, `&mut` receivers
+# versioned), every atom of a path is turned into primitive facts by a small table of API meanings:
+#
+#     discriminant(value) = Object | Value::as_object(value) is Some | Value::is_object(value)         → object
+#     Map::len(obj) ⋚ c, match Map::len(obj) { c => … }, Map::is_empty(obj)                              → interval of n
+#     k-th `next()` of Map::iter/keys/values(obj) is Some → n ≥ k ;  is None → n ≤ k-1
+#     ExactSizeIterator::len of that iterator after k `next()`s = n - k
+#     Option/Result combinators (ok_or_else, map, copied, …) are looked through with rules/optnorm.py
+#
+# and the clause compares the conjunction with the requirement.  A path with a fact missing is a violation when every
+# question asked about the object on it was understood, and undecided when some call consuming the object is unknown.
+# ======================================================================================================================
+from . import x_ipaths, optnorm, pathsum as _pathsum
+
+INF = float("inf")
+MAP_ITERS = ("::iter", "::keys", "::values", "::into_iter")
+OPT_TESTS = {"std::option::Option::<T>::is_some": ("Some", "None"), "std::option::Option::<T>::is_none": ("None", "Some"),
+             "std::result::Result::<T, E>::is_ok": ("Ok", "Err"), "std::result::Result::<T, E>::is_err": ("Err", "Ok")}
+CMP_CALL_SUFFIX = {"::eq": "Eq", "::ne": "Ne", "::ge": "Ge", "::gt": "Gt", "::le": "Le", "::lt": "Lt"}
+_NEG = {"Eq": "Ne", "Ne": "Eq", "Lt": "Ge", "Le": "Gt", "Gt": "Le", "Ge": "Lt"}
+_SWAP = {"Gt": "Lt", "Ge": "Le", "Lt": "Gt", "Le": "Ge", "Eq": "Eq", "Ne": "Ne"}
+
+
+def _path(e):
+    return (e[1] or {}).get("path", "") if e[0] == "call" else ""
+
+
+def _int_const(e):
+    e = strip_refs(e)
+    if e[0] == "const":
+        v = const_value(e[1])
+        if isinstance(v, int) and not isinstance(v, bool):
+            return v
+    return None
+
+
+class PathReading:
+    """What one Ok(Some) path of the dispatcher establishes."""
+    def __init__(self):
+        self.object = False
+        self.lo, self.hi = 0, INF
+        self.hit = False
+        self.unknown = []        # questions asked of the object that the reader does not understand
+        self.len_facts = []      # human-readable
+
+
+class GuardReader:
+    def __init__(self, disp, skip=()):
+        self.d = disp
+        self.facts = disp.facts
+        self.b = disp.body
+        skip = set(skip)
+        self.w = x_ipaths.summarize(self.b, x_ipaths.loop_free_local(self.facts, skip))
+        self.readable = not self.w.overflow and bool(self.w.paths)
+        self.success = []
+        self.truncated_success = False
+        for p in self.w.paths:
+            r = p.result
+            if p.truncated:
+                self.truncated_success = True       # a loop in the dispatcher: whether it ends in a success is not read
+                continue
+            if r is not None and r[0] == "agg" and r[1].get("variant") == "Ok" and r[2] and strip_refs(r[2][0])[0] == "agg" and strip_refs(r[2][0])[1].get("variant") == "Some":
+                self.success.append(p)
+
+    # ---- the object and its iterators -----------------------------------------------------------------
+    def is_value(self, e):
+        return strip_refs(e) == ("arg", self.d.value_arg)
+
+    def is_as_object(self, e):
+        e = strip_refs(e)
+        return e[0] == "call" and _path(e) == "serde_json::Value::as_object" and e[2] and self.is_value(e[2][0])
+
+    def is_object_payload(self, e):
+        e = strip_refs(e)
+        if e[0] == "payload" and len(e) > 2:
+            return self.is_as_object(e[2])
+        if e[0] == "field" and e[2] == 0 and e[1][0] == "downcast":
+            src = strip_refs(e[1][1])
+            if e[1][2] == "Object" and self.is_value(src):
+                return True
+            if e[1][2] in ("Some", "Continue"):
+                if src[0] == "call" and _path(src).endswith("as std::ops::Try>::branch") and src[2]:
+                    src = strip_refs(src[2][0])
+                return self.is_as_object(src)
+        if e[0] == "call" and _path(e) in ("std::option::Option::<T>::unwrap", "std::option::Option::<T>::expect") and e[2]:
+            return self.is_as_object(e[2][0])
+        return False
+
+    def iter_position(self, e):
+        """e = iterator over the object's entries after k calls of next() → k; None if not such an iterator;
+        -1 if it is one but was advanced by something the reader does not count."""
+        e = strip_refs(e)
+        k = 0
+        while e[0] == "after":
+            if not e[2].endswith("Iterator>::next") and e[2] != "std::iter::Iterator::next":
+                k = -1
+                e = strip_refs(e[1])
+                while e[0] == "after":
+                    e = strip_refs(e[1])
+                break
+            if k >= 0:
+                k += 1
+            e = strip_refs(e[1])
+        if e[0] == "call" and "serde_json" in _path(e) and _path(e).endswith(MAP_ITERS) and e[2] and self.is_object_payload(e[2][0]):
+            return k
+        if e[0] == "call" and _path(e).endswith("IntoIterator>::into_iter") and e[2] and self.is_object_payload(e[2][0]):
+            return k
+        return None
+
+    def len_offset(self, e):
+        """e = n - k for the object's entry count n → k; else None."""
+        e = strip_refs(e)
+        if e[0] == "cast" and len(e) > 3 and e[3] in ("usize", "u64", "u128", "i128", "i64", "isize"):
+            e = strip_refs(e[2])
+        if e[0] != "call" or not e[2]:
+            return None
+        p = _path(e)
+        if p.endswith("::len") and "serde_json::Map" in p and self.is_object_payload(e[2][0]):
+            return 0
+        if p.endswith(("ExactSizeIterator::len", "ExactSizeIterator>::len", "Iterator::count", "Iterator>::count")):
+            k = self.iter_position(e[2][0])
+            if k is not None and k >= 0:
+                return k
+        return None
+
+    def consumes_object(self, e):
+        """A call one of whose arguments is the value, the object or an iterator over it."""
+        e = strip_refs(e)
+        if e[0] != "call":
+            return False
+        for a in e[2]:
+            if self.is_value(a) or self.is_object_payload(a) or self.iter_position(a) is not None:
+                return True
+        return False
+
+    # ---- atoms → primitive facts ----------------------------------------------------------------------
+    def read(self, p):
+        R = PathReading()
+        for key, val0 in p.order:
+            val = p.atoms.get(key, val0)
+            if key[0] == "variant":
+                e = self.w.exprs.get(key)
+                if e is not None:
+                    self.variant_fact(R, e, val, 0)
+                continue
+            rw = self.w.raw.get((key, val)) or self.w.raw.get((key, val0))
+            if rw is None:
+                continue
+            x, tv = rw
+            if key[0] == "int":
+                self.int_fact(R, x, tv)
+            else:
+                self.bool_fact(R, x, tv)
+        return R
+
+    def variant_fact(self, R, e, val, depth):
+        e = strip_refs(e)
+        if isinstance(val, tuple):        # ("not", {...}): only says which variants it is not
+            return
+        if self.is_value(e):
+            if val == "Object":
+                R.object = True
+            return
+        if self.is_as_object(e):
+            if val in ("Some", "Continue"):
+                R.object = True
+            return
+        if e[0] == "call" and _path(e) == PHF_GET:
+            if val == "Some" and e[2] and strip_refs(e[2][0]) == ("arg", self.d.map_arg):
+                R.hit = True
+            return
+        if e[0] == "call" and (_path(e).endswith("Iterator>::next") or _path(e) == "std::iter::Iterator::next") and e[2]:
+            k = self.iter_position(e[2][0])
+            if k is not None:
+                if k < 0:
+                    R.unknown.append(show_expr(e)[:120])
+                elif val == "Some":
+                    R.lo = max(R.lo, k + 1)
+                    R.len_facts.append("entry #%d exists" % (k + 1))
+                elif val == "None":
+                    R.hi = min(R.hi, k)
+                    R.len_facts.append("no entry #%d" % (k + 1))
+                return
+        if e[0] == "call" and e[1] and optnorm.M.match(_path(e)) and depth < 6:
+            cs = optnorm.cases_expr(self.facts, e)
+            if cs and not (len(cs) == 1 and cs[0][0] == ()):
+                sel = []
+                for conds, v in cs:
+                    v = strip_refs(v)
+                    vv = v[1].get("variant") if v[0] == "agg" else None
+                    if vv is None or vv == val:
+                        sel.append(dict(conds))
+                if sel:
+                    common = set(sel[0].items())
+                    for s in sel[1:]:
+                        common &= set(s.items())
+                    for k2, tag in common:
+                        src = optnorm.SRC_EXPRS.get(k2)
+                        if src is not None and k2[0] == "variant":
+                            self.variant_fact(R, src, tag, depth + 1)
+                return
+        if self.consumes_object(e):
+            R.unknown.append(show_expr(e)[:120])
+
+    def int_fact(self, R, x, v):
+        k = self.len_offset(x)
+        if k is None:
+            if self.consumes_object(x):
+                R.unknown.append(show_expr(x)[:120])
+            return
+        if isinstance(v, tuple):
+            for c in sorted(v[1]):
+                self.cmp_fact(R, "Ne", k, c)
+        else:
+            self.cmp_fact(R, "Eq", k, v)
+
+    def cmp_fact(self, R, op, k, c):
+        """(n - k) op c"""
+        c = c + k
+        R.len_facts.append("n %s %d" % (op, c))
+        if op == "Eq":
+            R.lo, R.hi = max(R.lo, c), min(R.hi, c)
+        elif op == "Lt":
+            R.hi = min(R.hi, c - 1)
+        elif op == "Le":
+            R.hi = min(R.hi, c)
+        elif op == "Gt":
+            R.lo = max(R.lo, c + 1)
+        elif op == "Ge":
+            R.lo = max(R.lo, c)
+        elif op == "Ne":
+            if c == R.lo:
+                R.lo += 1
+            if c == R.hi:
+                R.hi -= 1
+            # n ≥ k always: `n - k != 0` with lo == k
+        return
+
+    def bool_fact(self, R, x, truth):
+        x = strip_refs(x)
+        op = a = b_ = None
+        if x[0] == "binop" and x[1] in _NEG:
+            op, a, b_ = x[1], x[2], x[3]
+        elif x[0] == "call" and ("PartialEq" in _path(x) or "PartialOrd" in _path(x)) and len(x[2]) == 2:
+            for suf, o in CMP_CALL_SUFFIX.items():
+                if _path(x).endswith(suf):
+                    op, a, b_ = o, x[2][0], x[2][1]
+        if op is not None:
+            if not truth:
+                op = _NEG[op]
+            ka, kb = self.len_offset(a), self.len_offset(b_)
+            ca, cb = _int_const(a), _int_const(b_)
+            if ka is not None and cb is not None:
+                self.cmp_fact(R, op, ka, cb)
+            elif kb is not None and ca is not None:
+                self.cmp_fact(R, _SWAP[op], kb, ca)
+            elif ka is not None or kb is not None:
+                R.unknown.append(show_expr(x)[:120])
+            return
+        if x[0] == "call" and _path(x) in OPT_TESTS and x[2]:
+            yes, no = OPT_TESTS[_path(x)]
+            self.variant_fact(R, x[2][0], yes if truth else no, 1)
+            return
+        if x[0] == "call" and _path(x).endswith("::is_empty") and "serde_json::Map" in _path(x) and x[2] and self.is_object_payload(x[2][0]):
+            if truth:
+                R.hi = min(R.hi, 0)
+            else:
+                R.lo = max(R.lo, 1)
+            R.len_facts.append("n == 0" if truth else "n >= 1")
+            return
+        if x[0] == "call" and _path(x) == "serde_json::Value::is_object" and x[2] and self.is_value(x[2][0]):
+            if truth:
+                R.object = True
+            return
+        if self.consumes_object(x):
+            R.unknown.append(show_expr(x)[:120])
+
+    # ---- values on a path -------------------------------------------------------------------------------
+    def lookup_on(self, p):
+        """(key expression, table expression) of the table lookup on path p, with the path's own values."""
+        for ev in p.events:
+            if ev[0] == "call" and ev[1] and ev[1].get("path") == PHF_GET and len(ev[2]) >= 2:
+                return ev[2][1], ev[2][0]
+        return None, None
